@@ -68,8 +68,12 @@ class Molecule(BigSMILESbase):
                         other_bd = self._elements[-1].bond_descriptors[-1]
                     if len(pre_stochastic.bond_descriptors) > 0:
                         found_compatible = False
-                        for bd in pre_stochastic.bond_descriptors[0]:
-                            if bd.is_compatible(other_bd):
+                        for bd in pre_stochastic.bond_descriptors:
+                            if isinstance(self._elements[-1], Stochastic):
+                                # The token continues where the right terminal of the stochastic object points to.
+                                if bd.generate_string(False) == other_bd.generate_string(False):
+                                    found_compatible = True
+                            elif bd.is_compatible(other_bd):
                                 found_compatible = True
                         if not found_compatible:
                             raise RuntimeError(
